@@ -156,6 +156,36 @@ func c07RunImpl(c corr.Case) []string {
 				}
 				return "err:inval"
 			}
+			if t[0] == "fsreaddir" { // the wrapper's own ReadDir method (ReadOnlyFs has one), against afero.ReadDir of the wrapped filesystem
+				name := string(corr.UnHex(t[1]))
+				rd, ok := st.wrapper.(interface {
+					ReadDir(string) ([]os.FileInfo, error)
+				})
+				if !ok {
+					return "err:inval"
+				}
+				list := func(fis []os.FileInfo, err error) string {
+					if err != nil {
+						return "err:" + ErrClass(err)
+					}
+					var ns []string
+					for _, fi := range fis {
+						ns = append(ns, fmt.Sprintf("%s/%v/%d", corr.HexS(fi.Name()), fi.IsDir(), fi.Size()))
+					}
+					return "list=" + strings.Join(ns, ",")
+				}
+				before := FullSnapshot(st.src, st.root)
+				got := list(rd.ReadDir(name))
+				want := list(afero.ReadDir(st.direct(), name))
+				note := ""
+				if got != want {
+					note += " #NOT-TRANSPARENT(direct:" + want + ")"
+				}
+				if FullSnapshot(st.src, st.root) != before {
+					note += " #FROZEN-VIOLATED"
+				}
+				return got + note
+			}
 			before := FullSnapshot(st.src, st.root)
 			spy, _ := st.cmp.(*spyFs)
 			if spy != nil {
@@ -304,7 +334,9 @@ func c07HandleOps(hi int) []string {
 	return []string{
 		fmt.Sprintf("h.read %d 3", hi), fmt.Sprintf("h.write %d 5858", hi), fmt.Sprintf("h.writeat %d 5959 1", hi), fmt.Sprintf("h.readfrom %d 4652", hi),
 		fmt.Sprintf("h.trunc %d 0", hi), fmt.Sprintf("h.trunc %d 9", hi), fmt.Sprintf("h.seek %d 1 0", hi), fmt.Sprintf("h.readat %d 4 0", hi),
-		fmt.Sprintf("h.stat %d", hi), fmt.Sprintf("h.readdirnames %d -1", hi), fmt.Sprintf("h.sync %d", hi), fmt.Sprintf("h.close %d", hi),
+		fmt.Sprintf("h.stat %d", hi), fmt.Sprintf("h.readdirnames %d -1", hi), fmt.Sprintf("h.sync %d", hi),
+		// rewind (also a directory handle), then try to write once more
+		fmt.Sprintf("h.seek %d 0 0", hi), fmt.Sprintf("h.writeat %d 5a 0", hi), fmt.Sprintf("h.close %d", hi),
 		fmt.Sprintf("h.write %d 5a", hi), fmt.Sprintf("h.writestring %d 5753", hi), fmt.Sprintf("h.readfrom %d 5246", hi),
 	}
 }
@@ -344,6 +376,13 @@ func c07Exhaustive(tier string) []corr.Case {
 				cases = append(cases, corr.Case{Lines: l})
 			}
 		}
+	}
+	// the wrapper's own ReadDir method, before and after the source changed underneath it
+	for _, st := range []string{"ro-mem", "ro-os", "ro-bp", "ro-ro"} {
+		l := append([]string{"case " + st}, c07Setup()...)
+		l = append(l, "fsreaddir "+h("/d"), "fsreaddir "+h("/"), "fsreaddir "+h("/d/"), "src.create "+h("/d/added"), "src.remove "+h("/d/file"), "fsreaddir "+h("/d"),
+			"fsreaddir "+h("/d/."), "src.mkdir "+h("/d/newdir")+" 493", "fsreaddir "+h("/d"), "fsreaddir "+h("/absent"), "fsreaddir "+h("/top"), "snapshot")
+		cases = append(cases, corr.Case{Lines: l})
 	}
 	// reads with names that are not clean: the wrapper hands them on as they are (below a BasePathFs a name that
 	// climbs out of the root does not exist, whatever it cleans to)
@@ -407,7 +446,10 @@ func c07Random(r *corr.Rand, tier string) []corr.Case {
 			case q < 30:
 				l = append(l, "open "+h(p))
 			case q < 38:
-				l = append(l, corr.Pick(rr, []string{"stat ", "lstat "})+h(p))
+				l = append(l, corr.Pick(rr, []string{"stat ", "lstat ", "fsreaddir "})+h(p))
+				if rr.Chance(30) {
+					l = append(l, corr.Pick(rr, []string{"src.create ", "src.remove "})+h(corr.Pick(rr, []string{"/d/extra", "/d/sub/x", "/d/new"})))
+				}
 			case q < 60:
 				m := corr.Pick(rr, []string{"create %s", "mkdir %s 493", "mkdirall %s 493", "remove %s", "removeall %s", "chmod %s 384", "chown %s 1 1", "chtimes %s 5"})
 				l = append(l, fmt.Sprintf(m, h(p)))
